@@ -1810,3 +1810,15 @@ Proof.
   rewrite Hc in E. inversion E; subst t2.
   rewrite (B d Hd). destruct (disable_stdio_inheritance_effect t) as (_ & _ & X). apply X. auto.
 Qed.
+
+(* ------------------------------------------------------------------ *)
+(* N. uv_kill                                                            *)
+(* ------------------------------------------------------------------ *)
+(* pass-through: whatever pid is - a process, 0, or a negative number naming a
+   process group - kill(2) is called with exactly these arguments and its
+   outcome is returned as 0 / UV__ERR(errno) *)
+Theorem uv_kill_passthrough pid sig a :
+  fst (uv_kill pid sig a) = (pid, sig) /\
+  snd (uv_kill pid sig a) = match a with KOk => 0%Z | KErr e => (- e)%Z end /\
+  uv_process_kill pid sig a = uv_kill pid sig a.
+Proof. repeat split. Qed.
